@@ -68,6 +68,8 @@ struct FolderMeta extends Meta
         @OA
     more String?
         @OC
+alias Noted = String
+    @N3
 struct Plain
     a String
         @OC
@@ -75,6 +77,12 @@ struct Plain
         @OA
     c String
         @OB
+    z String?
+        @N1
+        @N3
+        @N2
+    w Noted?
+        @N1
 struct Deep extends Plain
     d String
         @OD
